@@ -63,6 +63,8 @@ def run_verus_unit(unit_name, prop, tier, only=None):
         return [Res('%s::<extract>' % unit_name, 'verus', 'infra', [prop] if prop else [], 'extractor', 0, 'extraction failed: %s' % e,
                     extra={'extract_failed': True})], info
     texts = u['texts']
+    ve.EXTRA_ARGS = list(u.get('verus_args', []))
+    info['verus_args'] = list(ve.EXTRA_ARGS)
     obls = [o for o in u['obligations'] if (prop is None or prop in o.props)]
     if only:
         obls = [o for o in obls if any(s in o.name for s in only)]
@@ -206,8 +208,11 @@ def finish(prop, tier, seed, level, results, infos, t0, explanation, trusted_bas
     # A lost anchor / changed source shape leaves the Verus obligations undecided (exit 2).  Before settling for that,
     # run the paired counterexample search: a concrete failing input on the real code is a violation in its own right.
     if cex_search:
-        for r in results:
-            if r.status in ('infra', 'undecided') and r.engine == 'verus':
+        # (the vacuity guards are not obligations of the code: prefer a real obligation as the one the failing input is reported for)
+        cands_ = [r for r in results if r.status in ('infra', 'undecided') and r.engine == 'verus']
+        cands_.sort(key=lambda r: r.kind == 'canary')
+        for r in cands_:
+            if True:
                 try:
                     cex = cex_search(r)
                 except Exception as e:
